@@ -76,6 +76,8 @@ def make_image(
     elif time_kind == "time":
         if series:
             kw["time"] = [float(t) for t in np.cumsum(rng.integers(1, 50, size=nt))]
+            if rng.random() < 0.5:
+                kw["time"] = [t - kw["time"][0] for t in kw["time"]]  # starting at exactly 0
         else:
             kw["time"] = float(rng.integers(0, 100))
     if name is not None:
